@@ -447,7 +447,12 @@ def mutate_strict(bb: Backbone, comb, protected):
                 if lo < ph and hi > pl:
                     return None
             edits.append((i + (s - v.start), i + (e - v.start), alt))
-            full.append((lo, hi, v))
+            if v.kind == 'INDEL' and any(len(pz) > 2 and pz[1] - 1 == lo for pz in protected):
+                # anchored on the last base of the start codon: the tool rewrites the record in end-inclusion form (anchor
+                # AFTER the changed bases), so for the adjacency rule it occupies [lo+1, hi+1)
+                full.append((lo + 1, hi + 1, v))
+            else:
+                full.append((lo, hi, v))
     edits.sort()
     for (a1, b1, _), (a2, b2, _) in zip(edits, edits[1:]):
         if b1 > a2 or (a1 == a2 and b1 == b2):
